@@ -283,7 +283,18 @@ fn render_faults(b: &mut B) {
     b.r("filter/section-value-type", "{% filter ⟦round⟧ %}abc{% endfilter %}");
     b.r("filter/section-body-fails", "{% filter upper %}a{{ 1 * ⟦s⟧ }}{% endfilter %}");
     b.r("filter/setblock-value-type", "{% set v | ⟦round⟧ %}abc{% endset %}");
+    // the filter that fails is the culprit, not an earlier one of the same block (seeded change
+    // C12-8 gave every filter of a set block the first filter's span)
+    // (a value-type refusal is blamed on the value, whose last token is the PREVIOUS filter: both
+    // readings pass; an error of the filter's own - conversion, missing argument - sits on the filter)
     b.r("filter/setblock-second", "{% set v | ⟦upper⟧ | ⟦round⟧ %}abc{% endset %}");
+    b.r("filter/setblock-second-conversion", "{% set v | upper | ⟦int⟧ %}abc{% endset %}");
+    b.r("filter/setblock-third", "{% set v | upper | trim | ⟦int⟧ %}abc{% endset %}");
+    b.r("filter/setblock-second-missing-arg", "{% set v | lower | ⟦truncate⟧ %}abc{% endset %}");
+    b.r("filter/setblock-global-second", "{% set_global v | upper | ⟦int⟧ %}abc{% endset %}");
+    b.r("filter/setblock-second-on-next-line", "{% set v | upper\n   | ⟦int⟧ %}abc{% endset %}");
+    b.r("filter/chain-third", "{{ s | upper | trim | ⟦int⟧ }}");
+    b.r("filter/section-in-section-inner", "{% filter upper %}{% filter ⟦round⟧ %}abc{% endfilter %}{% endfilter %}");
     b.r("filter/setblock-missing-arg", "{% set v | ⟦truncate⟧ %}abc{% endset %}");
     // ---- tests
     b.r("test/value-type-string", "{{ ⟦s⟧ is odd }}");
